@@ -18,6 +18,7 @@ import (
 	"errors"
 	"fmt"
 	"io"
+	"math/big"
 
 	"github.com/btcsuite/btcd/btcec/v2"
 	"github.com/btcsuite/btcd/btcec/v2/ellswift"
@@ -252,11 +253,16 @@ func fieldFromBytes(b []byte) *btcec.FieldVal {
 	return &f
 }
 
+// fieldPrime is p = 2^256 - 2^32 - 977.
+var fieldPrime, _ = new(big.Int).SetString("fffffffffffffffffffffffffffffffffffffffffffffffffffffffefffffc2f", 16)
+
 // makeKey creates a key pair and an ElligatorSwift encoding whose first pm
 // bytes equal the v1 prefix (and whose byte pm differs from it): the u half
 // of an encoding is free, so the initiator can be made to look like a v1 peer
-// for up to 15 bytes.
-func (r *Ref) makeKey(pm int) error {
+// for up to 15 bytes.  With uPlusP the u half is sent NON-CANONICALLY as
+// u + p (possible for u < 2^256 - p): the peer must reduce it modulo p and
+// both sides must hash the bytes as sent.
+func (r *Ref) makeKey(pm int, uPlusP bool) error {
 	var pb [32]byte
 	if _, err := rand.Read(pb[:]); err != nil {
 		return err
@@ -266,16 +272,24 @@ func (r *Ref) makeKey(pm int) error {
 	x := fieldFromBytes(xb)
 	pre := v1Prefix(r.magic)
 	for tries := 0; tries < 10000; tries++ {
-		var ub [32]byte
+		var ub, canon [32]byte
 		if _, err := rand.Read(ub[:]); err != nil {
 			return err
 		}
-		copy(ub[:pm], pre[:pm])
-		if pm < 16 && ub[pm] == pre[pm] {
-			ub[pm] ^= 0x55
+		if uPlusP {
+			// u in 1..2^32+976, sent as u + p
+			v := new(big.Int).SetUint64(uint64(binary.LittleEndian.Uint32(ub[:4])) + 1)
+			v.FillBytes(canon[:])
+			new(big.Int).Add(v, fieldPrime).FillBytes(ub[:])
+		} else {
+			copy(ub[:pm], pre[:pm])
+			if pm < 16 && ub[pm] == pre[pm] {
+				ub[pm] ^= 0x55
+			}
+			canon = ub
 		}
 		u := fieldFromBytes(ub[:])
-		if *u.Bytes() != ub { // overflowed the field: not a faithful prefix
+		if *u.Bytes() != canon { // overflowed the field although it should not
 			continue
 		}
 		var cb [1]byte
@@ -288,18 +302,26 @@ func (r *Ref) makeKey(pm int) error {
 		copy(r.ours[32:], t.Bytes()[:])
 		r.priv = priv
 		r.KeyMade = true
-		// ElligatorSwift exercise: the encoding decodes to the encoded x.
-		dx, err := ellswift.XSwiftEC(fieldFromBytes(r.ours[:32]), fieldFromBytes(r.ours[32:]))
-		r.EllswiftOK = err == nil && bytes.Equal(dx.Bytes()[:], xb)
+		// ElligatorSwift exercise through the PUBLIC byte-level entry point:
+		// with the private key 1 the x-only ECDH result is the decoded x.
+		dx, err := ellswift.EllswiftECDHXOnly(r.ours, privOne())
+		r.EllswiftOK = err == nil && bytes.Equal(dx[:], xb)
 		return nil
 	}
 	return fmt.Errorf("ref: no ellswift encoding found")
 }
 
+func privOne() *btcec.PrivateKey {
+	var one [32]byte
+	one[31] = 1
+	k, _ := btcec.PrivKeyFromBytes(one[:])
+	return k
+}
+
 // SendKey is the spec's key || garbage step (ISendKey, and the first half of
 // RRecvKey).
-func (r *Ref) SendKey(garbageLen, pm int) error {
-	if err := r.makeKey(pm); err != nil {
+func (r *Ref) SendKey(garbageLen, pm int, uPlusP bool) error {
+	if err := r.makeKey(pm, uPlusP); err != nil {
 		return err
 	}
 	r.garbage = make([]byte, garbageLen)
@@ -344,7 +366,7 @@ func (r *Ref) sendHs(decoys []int) error {
 
 // RespondKey is RRecvKey: byte-wise v1 detection, key || garbage at the first
 // mismatch, rest of the key, ciphers, then the sending half.
-func (r *Ref) RespondKey(garbageLen int, decoys []int) error {
+func (r *Ref) RespondKey(garbageLen int, decoys []int, uPlusP bool) error {
 	pre := v1Prefix(r.magic)
 	sent := false
 	for len(r.prefix) < 16 {
@@ -354,7 +376,7 @@ func (r *Ref) RespondKey(garbageLen int, decoys []int) error {
 		}
 		r.prefix = append(r.prefix, b[0])
 		if b[0] != pre[len(r.prefix)-1] {
-			if err := r.SendKey(garbageLen, 0); err != nil {
+			if err := r.SendKey(garbageLen, 0, uPlusP); err != nil {
 				return err
 			}
 			sent = true
